@@ -133,7 +133,7 @@ def serde_stubs(cx, engine):
         (re.compile(r"^<V as (?:serde::de::)?Visitor(?:<'_>)?>::(visit_\w+)(?:::<.*>)?$"), h_visit),
         (re.compile(r"^<[TKV] as DeserializeSeed<'_>>::deserialize::<"), h_seed),
         (re.compile(r"^(?:lexpr::)?Cons::(car|cdr)$"), h_car),
-        (re.compile(r"^<error::Error as serde::de::Error>::(invalid_type|invalid_value|custom)"), h_invalid_type),
+        (re.compile(r"^<error::Error as serde::(?:de|ser)::Error>::(invalid_type|invalid_value|invalid_length|custom)"), h_invalid_type),
         (re.compile(r"^<f64 as From<f32>>::from$"), h_f64_from_f32),
         (re.compile(r"^<\[\w+\] as (?:std::ops::)?Index(?:Mut)?<(?:std::ops::)?(Range\w*)<usize>>>::index(?:_mut)?$"), h_slice_range),
         (re.compile(r"^(Vec::<Value>::|<&str as Into|<&\[u8\] as Into|Value::(cons|symbol|list)::<|<Vec<Value> as Into)"), h_blob),
